@@ -207,6 +207,7 @@ var c20Usages = []smx509.ExtKeyUsage{smx509.ExtKeyUsageCodeSigning, smx509.ExtKe
 
 type c20World struct {
 	usages        []smx509.ExtKeyUsage // the application's shared list of requested key usages
+	ekuLeaf       *smx509.Certificate  // leaf whose extended key usages cover only part of that list
 	seed          []byte
 	sm2Priv       *sm2.PrivateKey
 	sm2Peer       *sm2.PrivateKey
@@ -383,7 +384,27 @@ func newC20World(seed []byte, need map[string]bool, withArtefacts *c20World) (*c
 					return nil, err
 				}
 				w.twins = append(w.twins, tc)
+				if k == 0 {
+					// a leaf under the first twin root whose extended key usages allow only some of the usages an application asks for
+					lk, err := sm2.NewPrivateKey(scalarFrom(seed, "ekuleaf"))
+					if err != nil {
+						return nil, err
+					}
+					lt := &x509.Certificate{SerialNumber: big.NewInt(7100), Subject: pkix.Name{Organization: []string{"verif"}, CommonName: "verif eku leaf"},
+						NotBefore: c20VerifyTime.AddDate(-1, 0, 0), NotAfter: c20VerifyTime.AddDate(1, 0, 0), KeyUsage: x509.KeyUsageDigitalSignature,
+						ExtKeyUsage: []x509.ExtKeyUsage{x509.ExtKeyUsageOCSPSigning, x509.ExtKeyUsageClientAuth}}
+					lder, err := smx509.CreateCertificate(opReader(seed, -200), lt, tmpl, &lk.PublicKey, tk)
+					if err != nil {
+						return nil, err
+					}
+					if w.ekuLeaf, err = smx509.ParseCertificate(lder); err != nil {
+						return nil, err
+					}
+				}
 			}
+		}
+		if withArtefacts != nil {
+			w.ekuLeaf = withArtefacts.ekuLeaf
 		}
 		for _, tc := range w.twins[:3] {
 			w.roots.AddCert(tc)
@@ -630,7 +651,11 @@ func c20Do(w *c20World, kind string, opseed int, msg []byte) (out []byte) {
 		if opseed&1 != 0 {
 			opts.KeyUsages = w.usages // ONE options template of the application, shared by all tasks: a list of six usages
 		}
-		chains, err := w.leaf.Verify(opts)
+		leaf := w.leaf
+		if opseed&3 == 3 && w.ekuLeaf != nil {
+			leaf = w.ekuLeaf
+		}
+		chains, err := leaf.Verify(opts)
 		if opseed&1 != 0 {
 			// the outcome depends on the fixture's extended key usages; what matters is that it is the same as sequentially,
 			// and that the application's list is still what it was
